@@ -146,6 +146,8 @@ def classify_access(func, node):
             for d in p.get('decls', []):
                 if d.get('init') is cur:
                     t = d.get('t', '')
+                    while t.rstrip().endswith('const') and ('*' in t or '&' in t):
+                        t = t.rstrip()[:-5].rstrip()      # 'char *const': the pointer itself is const, not the pointee
                     if (t.endswith('&') or t.endswith('*')) and not t.startswith('const '):
                         return 'write'
             return 'read'
